@@ -337,3 +337,17 @@ impl JunosOpts {
         &self.ephemeral_db
     }
 }
+
+#[cfg(bgpfu_verif)]
+impl IrrdOpts {
+    pub(super) fn verif_new(host: String, port: u16) -> Self {
+        Self { host, port }
+    }
+}
+
+#[cfg(bgpfu_verif)]
+impl JunosOpts {
+    pub(super) fn verif_new(ephemeral_db: String) -> Self {
+        Self { ephemeral_db }
+    }
+}
